@@ -443,6 +443,21 @@ public:
                     } else if (!FD) {
                         J.attributeBegin("fn"); tree(CE->getCallee(), depth + 1); J.attributeEnd();
                     }
+                    if (FD) {
+                        bool any = false;
+                        for (unsigned i = firstArg; i < CE->getNumArgs(); i++) {
+                            unsigned pi = i - firstArg;
+                            if (pi < FD->getNumParams() && mutRef(FD->getParamDecl(pi)->getType())) any = true;
+                        }
+                        if (any)
+                            J.attributeArray("mutargs", [&] {
+                                for (unsigned i = firstArg; i < CE->getNumArgs(); i++) {
+                                    unsigned pi = i - firstArg;
+                                    if (pi < FD->getNumParams() && mutRef(FD->getParamDecl(pi)->getType()))
+                                        J.value((int64_t)pi);
+                                }
+                            });
+                    }
                     J.attributeArray("args", [&] {
                         for (unsigned i = firstArg; i < CE->getNumArgs(); i++)
                             tree(CE->getArg(i), depth + 1);
@@ -597,6 +612,28 @@ public:
         });
     }
 
+    static bool mutRef(QualType T) {
+        if (!T->isReferenceType()) return false;
+        QualType P = T->getPointeeType();
+        return !P.isConstQualified();
+    }
+
+    const char* argKind(const FunctionDecl* FD, const CallExpr* CE, const Expr* cur) {
+        if (!FD) return "arg";
+        unsigned off = 0;
+        if (isa<CXXOperatorCallExpr>(CE) && isa<CXXMethodDecl>(FD)) off = 1;
+        for (unsigned i = 0; i < CE->getNumArgs(); i++) {
+            if (CE->getArg(i)->IgnoreParenImpCasts() == cur->IgnoreParenImpCasts()) {
+                if (i < off) return "arg";
+                unsigned pi = i - off;
+                if (pi < FD->getNumParams())
+                    return mutRef(FD->getParamDecl(pi)->getType()) ? "mutarg" : "arg";
+                return "arg";
+            }
+        }
+        return "arg";
+    }
+
     // is the value of expression E consumed by an enclosing expression?
     bool valueUsed(const Expr* E) {
         const Stmt* cur = E;
@@ -662,7 +699,7 @@ public:
                     if (auto* MD = MC->getMethodDecl()) return MD->isConst() ? "cmcall" : "mcall";
                     return "mcall";
                 }
-                return "arg";
+                return argKind(MC->getDirectCallee(), MC, cast<Expr>(cur));
             }
             if (auto* OC = dyn_cast<CXXOperatorCallExpr>(P)) {
                 if (OC->getNumArgs() > 0 && OC->getArg(0)->IgnoreParenImpCasts() == cast<Expr>(cur)->IgnoreParenImpCasts()) {
@@ -670,9 +707,16 @@ public:
                         if (auto* MD = dyn_cast<CXXMethodDecl>(FD)) return MD->isConst() ? "cmcall" : "mcall";
                     return "mcall";
                 }
+                return argKind(OC->getDirectCallee(), OC, cast<Expr>(cur));
+            }
+            if (auto* CE = dyn_cast<CallExpr>(P)) return argKind(CE->getDirectCallee(), CE, cast<Expr>(cur));
+            if (auto* CE = dyn_cast<CXXConstructExpr>(P)) {
+                const FunctionDecl* FD = CE->getConstructor();
+                for (unsigned i = 0; i < CE->getNumArgs(); i++)
+                    if (CE->getArg(i)->IgnoreParenImpCasts() == cast<Expr>(cur)->IgnoreParenImpCasts() && FD && i < FD->getNumParams())
+                        return mutRef(FD->getParamDecl(i)->getType()) ? "mutarg" : "arg";
                 return "arg";
             }
-            if (isa<CallExpr>(P) || isa<CXXConstructExpr>(P)) return "arg";
             return "ref";
         }
         return "ref";
